@@ -19,14 +19,15 @@ RENOTATIONS = ["to_absolute_note", "to_scale_note", "to_standard_note", "to_chor
 NEED_EQUAL = {"split_too_long_chords", "normalize"}
 
 
-def fix_relative(score):
-    """make every relative note follow a sounded pitched note of its part within the current run of chords"""
+def fix_relative(score, across_gaps=False):
+    """make every relative note follow a sounded pitched note of its part within the current run of chords
+    (across_gaps: anywhere earlier in the part, also before chords the part is absent from - the music21 export keeps the reference)"""
     seen = {}
     out = []
     for c in score:
         present = {nm for nm, _ in c["parts"]}
         for nm in list(seen):
-            if nm not in present:
+            if nm not in present and not across_gaps:
                 seen[nm] = False
         parts = []
         for nm, notes in c["parts"]:
@@ -73,6 +74,14 @@ class Renotate(Stream):
             if name in NEED_EQUAL or rng.random() < 0.3:
                 sc = sg.equalize(sc)
             sc = fix_relative(sc)
+            if i % 3 == 0:
+                # chord tones, bass tones and chromatic notes carrying a per-note mode or accidental (which those systems ignore)
+                for c in sc:
+                    for _, notes in c["parts"]:
+                        for nt in notes:
+                            if nt["kind"] in "cbh" and not nt.get("dir") and rng.random() < 0.4:
+                                if rng.random() < 0.5: nt["mode"] = rng.choice(sg.MODES)
+                                else: nt["acc"] = rng.choice(sg.ACCS)
             second = rng.choice(RENOTATIONS) if rng.random() < 0.25 else None
             if second in NEED_EQUAL or name in NEED_EQUAL:
                 sc = fix_relative(sg.equalize(sc))
